@@ -1,6 +1,7 @@
 package sim
 
 import (
+	"encoding/json"
 	"errors"
 	"fmt"
 	"reflect"
@@ -181,6 +182,54 @@ func (w *World) judgePersist(op *Op, t *Tree, root *mast.Root, reach []string, s
 			return
 		}
 		w.rootReg[key] = sig
+	case "C14":
+		if !w.decodable() || w.cfg.Marshaler != "json" || w.cfg.CmpScale != 0 {
+			return
+		}
+		w.st.OracleEvals++
+		// the whole persisted tree is predicted independently: layers by the harness's CRC-64 /
+		// divisibility rule, shape by the reference builder, bytes by the independent encoder,
+		// names by the independent BLAKE2b
+		indep := func(k int) int { return IndepLayer(w.kd.Key(k), w.cfg.BF) }
+		ref := BuildRef(t.model.Entries(), indep, w.cfg.BF)
+		if int(root.Height) != ref.H {
+			// not the canonical height under the published layer rule: either the layer function
+			// drifted (then keys sit at wrong levels, checked next) or canonical form is broken (C04's matter)
+			wr, err := WalkPersisted(func(nm string) ([]byte, bool) { return w.disks[t.disk].Bytes(nm) }, w.cfg.Format, rootLink(root), int(root.Height), w.keyIndexFromBody, w.kd.Rank, indep)
+			if err == nil {
+				for _, is := range wr.Issues {
+					if is.Clause == "key-layer" {
+						w.fail("key-level-disagrees-with-published-layer-rule", "%s", is.Detail)
+						return
+					}
+				}
+			}
+			return
+		}
+		marshal := json.Marshal
+		kbody := func(k int) []byte { b, _ := marshal(w.kd.Key(k)); return b }
+		vbody := func(v int) []byte { b, _ := marshal(w.vd.Val(v)); return b }
+		ref.Encode(w.cfg.Format, kbody, vbody)
+		if ref.RootName() != rootLink(root) {
+			// locate the first differing node for the report
+			wr, err := WalkPersisted(func(nm string) ([]byte, bool) { return w.disks[t.disk].Bytes(nm) }, w.cfg.Format, rootLink(root), int(root.Height), w.keyIndexFromBody, w.kd.Rank, indep)
+			if err != nil {
+				w.fail("stored-node-not-in-published-format", "%v", err)
+				return
+			}
+			for _, is := range wr.Issues {
+				if is.Clause == "key-layer" {
+					w.fail("key-level-disagrees-with-published-layer-rule", "%s", is.Detail)
+					return
+				}
+			}
+			if s := CompareShape(wr.Root, ref.Root); s != "" {
+				return // shape differs although layers agree: canonical form is C04's matter
+			}
+			w.fail("root-name-differs-from-independent-prediction", "persisted root %q, the independent encoder/hash predict %q for the same entries, layers and shape (format %s)", rootLink(root), ref.RootName(), w.cfg.Format)
+			return
+		}
+		w.st.Probes["root-name-predicted-independently"]++
 	case "C13":
 		w.st.OracleEvals++
 		reachSet := map[string]bool{}
